@@ -24,7 +24,10 @@ def cases(tier, seed):
             ("indep2", dag("indep2", [2, 1])),
             ("fork", dag("fork", [1, 2, 1], [2, 0])),
             ("join", dag("join", [1, 2, 1], [1, 3])),
-            ("diamond", dag("diamond", [1, 2, 3, 1], [1, 2, 0, 3]))]
+            ("diamond", dag("diamond", [1, 2, 3, 1], [1, 2, 0, 3])),
+            # structural nodes (no compute, no data: planned est == eft)
+            ("fork-zero", dag("fork", [1, 0, 2], [0, 0])),
+            ("join-zero", dag("join", [2, 1, 0], [0, 0]))]
     wb = dag("single", [2])
     wb2 = dag("chain2", [1, 1], [1])
     clusters = [CLUSTERS[2][1], CLUSTERS[2][2], CLUSTERS[3][1]]
